@@ -77,6 +77,26 @@ Theorem C08_recv_fb_is_recv :
 Proof. exact recv_fb_open. Qed.
 Print Assumptions C08_recv_fb_is_recv.
 
+(* ---- the transport step: drop and continue (listener leg) ---- *)
+
+(* the read loop over the connection's queue of datagrams: undecodable datagrams - empty, framing errors, and the
+   OVERSIZED ones (longer than the buffer the connection reads with) - are consumed and change nothing; the genuine
+   datagrams around them are processed exactly as without them.  The listener leg of the harness runs the server
+   behind the library's own UDP listener and sends datagrams of 64 ... 65507 bytes from the client's address, after
+   and during the handshake: the next genuine records must be delivered, Read must not report an error *)
+Theorem C08_pump_skips_undecodable :
+  forall (W : nat) (full est : bool) (q : list dgram) (s : rstate),
+    pump W full est s q =
+    pump W full est s (filter (fun d => match d with DRecs _ => true | _ => false end) q).
+Proof. exact pump_skips_undecodable. Qed.
+Print Assumptions C08_pump_skips_undecodable.
+
+Theorem C08_oversized_consumed :
+  forall (W : nat) (full est : bool) (s : rstate) (q : list dgram),
+    pump W full est s (DOversized :: q) = pump W full est s q.
+Proof. exact oversized_consumed. Qed.
+Print Assumptions C08_oversized_consumed.
+
 (* ---- unprotected non-fatal alerts (conn.go classifyReadLoopError) ---- *)
 
 (* WHILE THE HANDSHAKE IS RUNNING a warning alert that anybody can send (epoch 0, level warning, description
